@@ -157,6 +157,7 @@ def run_property(prop, tier='quick', seed=0, only_unit=None, verbose=False):
       continue
     except EngineError as e:
       status['crash'].append("%s: %s" % (u.name, e))
+      mismatch_units.append(u)      # the function-level clauses can still be searched natively
       if verbose:
         traceback.print_exc()
       continue
